@@ -308,6 +308,89 @@ def r7_extras(chk, prog, rule='R7'):
     return n
 
 
+def r8_settings_wiring(chk, prog, rule='R8'):
+    """R8: every display setting is switched by the argument / start flag that is named after it.
+     * UsageParams: printHidden()/printDeprecated()/contents() each return one member; addArgumentUsageShort binds
+       the contents member with the value shortOnly, ...Long with longOnly, addArgumentPrintHidden/-Deprecated and
+       setPrintHidden/-Deprecated the member their reader returns
+     * Handler::addArgumentUsageShort/-Long/PrintHidden/PrintDeprecated forward to the UsageParams function of the
+       same name
+     * the start flags hfUsageHidden, hfArgHidden, hfUsageDeprecated, hfArgDeprecated, hfUsageShort, hfUsageLong of
+       the Handler constructor select exactly that function"""
+    U = 'celma::prog_args::detail::UsageParams'
+    H = 'celma::prog_args::Handler'
+
+    def fields(n):
+        return {x['ref'].get('name') for x in walk(n) if x.get('k') == 'MemberExpr' and x['ref'].get('dk') == 'Field'}
+
+    def enumerators(n):
+        return {x['ref'].get('name') for x in walk(n) if x.get('k') == 'DeclRefExpr' and
+                x['ref'].get('dk') == 'EnumConstant'}
+    reader = {}
+    for r in ('printHidden', 'printDeprecated', 'contents'):
+        f = prog.one(U, r)
+        fl = fields(f.body)
+        chk.check(len(fl) == 1, rule, f.name, '%s() returns one setting' % r, f.loc(), 'members: %s' % sorted(fl))
+        reader[r] = next(iter(fl)) if len(fl) == 1 else None
+    chk.check(len(set(reader.values())) == 3, rule, U, 'the three settings are three members', '',
+              '%s' % reader)
+    binds = {'addArgumentUsageShort': ('contents', 'shortOnly'), 'addArgumentUsageLong': ('contents', 'longOnly'),
+             'addArgumentPrintHidden': ('printHidden', None), 'addArgumentPrintDeprecated': ('printDeprecated', None),
+             'setPrintHidden': ('printHidden', True), 'setPrintDeprecated': ('printDeprecated', True)}
+    for name, (rd, val) in binds.items():
+        f = prog.one(U, name)
+        fl = fields(f.body)
+        ok = fl == {reader[rd]}
+        detail = 'touches %s, %s() returns %s' % (sorted(fl), rd, reader[rd])
+        if ok and isinstance(val, str):
+            en = {e for e in enumerators(f.body) if e in ('all', 'shortOnly', 'longOnly')}
+            ok = en == {val}
+            detail = 'binds the value %s, expected %s' % (sorted(en), val)
+        if ok and val is True:
+            asg = [x for x in walk(f.body) if x.get('k') == 'BinaryOperator' and x.get('op') == '=']
+            ok = len(asg) == 1 and strip_all_casts(children(asg[0])[1]).get('val') in (True, 1, 'true')
+            detail = 'does not assign true'
+        chk.check(ok, rule, f.name, '%s() switches the setting that %s() reports%s' % (
+            name, rd, ' to %s' % val if isinstance(val, str) else ''), f.loc(), detail)
+    ucalls = ('addArgumentUsageShort', 'addArgumentUsageLong', 'addArgumentPrintHidden', 'addArgumentPrintDeprecated',
+              'setPrintHidden', 'setPrintDeprecated')
+
+    def usage_calls(f):
+        return [c for c in f.calls() if (c.get('callee') or '').startswith(U + '::') and
+                (c.get('callee') or '').split('::')[-1] in ucalls]
+    n_fw = 0
+    for name in ucalls[:4]:
+        fs = [f for f in prog.functions if f.classq == H and f.short == name and f.body is not None]
+        n_fw += len(fs)             # (the handler has no addArgumentPrintDeprecated() of its own)
+        for f in fs:
+            got = [(c.get('callee') or '').split('::')[-1] for c in usage_calls(f)]
+            chk.check(got == [name] and not f.cfg.must_pass_through(lambda n: n in usage_calls(f)), rule, f.name,
+                      'Handler::%s forwards to UsageParams::%s' % (name, name), f.loc(), 'calls %s' % got)
+    chk.require(n_fw >= 3, 'forwarding functions of the Handler found: %d' % n_fw)
+    flags = {'hfUsageHidden': 'setPrintHidden', 'hfArgHidden': 'addArgumentPrintHidden',
+             'hfUsageDeprecated': 'setPrintDeprecated', 'hfArgDeprecated': 'addArgumentPrintDeprecated',
+             'hfUsageShort': 'addArgumentUsageShort', 'hfUsageLong': 'addArgumentUsageLong'}
+    seen = {}
+    for f in prog.functions:
+        if f.classq != H or f.body is None or f.short not in ('Handler', 'handleStartFlags'):
+            continue
+        cfg = f.cfg
+        for c in usage_calls(f):
+            pos = cfg.position(c)
+            guards = set()
+            for bid, cond in cfg.cond_blocks():
+                if cond is not None and cfg.guarded_by_edge(pos, bid, 0):
+                    guards |= {e for e in enumerators(cond) if e.startswith('hf')}
+            callee = (c.get('callee') or '').split('::')[-1]
+            want = [k for k, v in flags.items() if v == callee]
+            ok = guards == set(want)
+            seen.setdefault(callee, []).append(ok)
+            chk.check(ok, rule, f.name, 'start flag %s selects %s()' % ('/'.join(want), callee), f.loc(c),
+                      'guarded by %s' % sorted(guards))
+    missing = sorted(set(flags.values()) - set(seen))
+    chk.check(not missing, rule, H, 'every usage start flag is wired', '', 'no call of %s under a start flag' % missing)
+
+
 def r4_one_settings_object(chk, prog):
     """'visible under the CURRENT settings': the usage settings (print hidden / deprecated, short-only / long-only)
     live in one UsageParams object per handler family; the arguments that change them at run time write into that
@@ -383,6 +466,8 @@ def run(chk):
     r5_visibility_arguments(chk, prog)
     chk.rule('R7', 'default value, check, constraint and hidden mark are listed whenever configured', 4)
     r7_extras(chk, prog)
+    chk.rule('R8', 'every display setting is switched by the argument / start flag named after it', 15)
+    r8_settings_wiring(chk, prog)
     # R6: the description text is formatted by TextBlock: no word of it is lost (C17-R1, same unit)
     from . import c17
     chk.rule('R6', 'the description of a listed argument is printed completely (text-block rules of C17)', 5)
